@@ -54,8 +54,12 @@ class ImgStub(_DaArrayBase):
     _symx_passthrough = True
     dtype = np.dtype(np.float32)
 
-    def __init__(self, shape, root="tomogram", origin=None, valid=None, fill=None, root_shape=None):
+    def __init__(self, shape, root="tomogram", origin=None, valid=None, fill=None, root_shape=None, chunks=None):
         self.shape = tuple(shape)
+        # dask-style chunk layout (concrete); one chunk per axis unless given
+        self.chunks = tuple(tuple(c) for c in chunks) if chunks is not None else tuple((s,) for s in self.shape)
+        self.numblocks = tuple(len(c) for c in self.chunks)
+        self.npartitions = int(np.prod(self.numblocks))
         self.root = root
         self.origin = tuple(origin) if origin is not None else tuple(0 for _ in shape)
         self.valid = tuple(valid) if valid is not None else tuple((0, s) for s in shape)
